@@ -784,7 +784,7 @@ func (c *Ctx) yieldVisitors(u *FuncUnit, yv *types.Var) map[*ast.CallExpr]*yield
 			}
 			var pv *types.Var
 			k := 0
-			for _, f := range w.Decl.Type.Params.List {
+			for _, f := range w.Type.Params.List {
 				for _, nm := range f.Names {
 					if k == i {
 						pv, _ = info.Defs[nm].(*types.Var)
